@@ -69,6 +69,12 @@ def run(ctx):
         progs.append(("bytes", lang.bytes_program(rng)))
         progs.append(("array-builtins", lang.array_ops_program(rng)))
         progs.append(("scoping-in-functions", lang.scoping_shadowed(rng)))
+    # constant expressions at the boundary operands (a compiler that folds them must fold them as the language defines them) and
+    # recursion close to the documented call-depth limit with large frames
+    for op in ("/", "%", "*", "+", "-"):
+        progs.append(("constant-arith", lang.arith_program(op, [(a, b) for a, b in lang.NEAR_PAIRS + [(7, -2), (-7, 2), (0, -1), (1, 1)] if not (op in ("/", "%") and b == 0)])))
+    for k in range(1 if quick else 6):
+        progs.append(("deep-frames", lang.deep_frames_program(rng)))
     # element kinds of arrays in value position (literal of structs; an element access whose value is discarded)
     progs.append(("struct-array-literal", "struct Pt { v: int }\nfn main() -> int {\n    let a: array<Pt> = [Pt { v: 1 }, Pt { v: 2 }]\n    (println (array_length a))\n    return 0\n}\nshadow main { assert (== 1 1) }\n"))
     progs.append(("struct-at-discarded", "struct Pt { v: int }\nfn main() -> int {\n    let mut a: array<Pt> = []\n    set a (array_push a Pt { v: 1 })\n    (at a 0)\n    (println (array_length a))\n    return 0\n}\nshadow main { assert (== 1 1) }\n"))
